@@ -516,7 +516,7 @@ def replay_kani(h, descs, prop):
         return info
     target = os.path.join(WOVEN, h.target)
     src = open(target).read()
-    marker = 'mod verif_kani {'
+    marker = 'mod %s {' % h.mod
     idx = src.rfind(marker)
     if idx < 0:
         return info
